@@ -75,14 +75,13 @@ def build(config, tier):
         # add / sub / scalar * / scalar / / unary minus: column c of the result is the VECTOR operation on column c
         # (primitive arithmetic uninterpreted, plain crate) - entry-wise semantics then follow from the C01 lane
         # contracts of the vector operators
-        cw = ["let a = mk::<%s>(); let b = mk::<%s>(); let s: %s = vk::any();" % (N, N, t),
-              "let (ra, rs, rm, rd, rn) = (a.add_mat%d(&b), a.sub_mat%d(&b), a.mul_scalar(s), a.div_scalar(s), -a);" % (n, n)]
-        for c_ in range(n):
-            cw.append('check!(mk::same(ra.col(%d), a.col(%d) + b.col(%d)) && mk::same(rs.col(%d), a.col(%d) - b.col(%d)), "add/sub column %d");' % (c_, c_, c_, c_, c_, c_, c_))
-            cw.append('check!(mk::same(rm.col(%d), a.col(%d) * s) && mk::same(rd.col(%d), a.col(%d) / s) && mk::same(rn.col(%d), -a.col(%d)), "scalar ops / negation column %d");' % (c_, c_, c_, c_, c_, c_, c_))
-        obs.append(Ob("%s_columnwise_ops" % pre, PROP, "\n    ".join(cw), fn="%s::add_mat/sub_mat/mul_scalar/div_scalar/neg" % N, kind="lemma", solver="cadical",
-                      stubs=["sse_uf", "arith_uf%d" % w], plain=True, clauses=2 * n, cls="forwarding",
-                      desc="%s: add_mat, sub_mat, mul_scalar, div_scalar and unary minus act column by column as the vector operators (bit-for-bit, primitive arithmetic uninterpreted); entry-wise semantics follow from the C01 vector contracts" % N))
+        for (opn, res, vop, dsc) in (("add", "a.add_mat%d(&b)" % n, "a.col({c}) + b.col({c})", "add_mat"), ("sub", "a.sub_mat%d(&b)" % n, "a.col({c}) - b.col({c})", "sub_mat"),
+                                     ("mul_scalar", "a.mul_scalar(s)", "a.col({c}) * s", "mul_scalar"), ("div_scalar", "a.div_scalar(s)", "a.col({c}) / s", "div_scalar"), ("neg", "-a", "-a.col({c})", "unary minus")):
+            cw = ["let a = mk::<%s>(); let b = mk::<%s>(); let s: %s = vk::any(); let r = %s;" % (N, N, t, res)]
+            cw.append('check!(%s, "%s acts column by column");' % (" && ".join("mk::same(r.col(%d), %s)" % (c_, vop.format(c=c_)) for c_ in range(n)), dsc))
+            obs.append(Ob("%s_columnwise_%s" % (pre, opn), PROP, "\n    ".join(cw), fn="%s::%s" % (N, dsc), kind="lemma", solver="cadical",
+                          stubs=["sse_uf", "arith_uf%d" % w], plain=True, clauses=n, cls="forwarding",
+                          desc="%s: %s acts column by column as the vector operator (bit-for-bit, primitive arithmetic uninterpreted); entry-wise semantics follow from the C01 vector contracts" % (N, dsc)))
         # ---- forwarding: operators == named methods, A*B column-wise through mul_vec.  The named methods
         # are replaced by uninterpreted functions of the operand bits (plain crate: no woven contracts)
         mv = [m_ for (m_, V_) in MULVEC[N] if V_ == M.col][0]
